@@ -104,6 +104,12 @@ def main(tier, seed):
     for accname in ('cones+qobj', 'all', 'mip'):
         jobs.append((binary, len(jobs), 'socp', 'quadratic objective + cone row', socp, accname, 0, 'absent', None, None))
         jobs.append((binary, len(jobs), 'socp', 'quadratic objective + cone row', socp, accname, 2, 'plain', ['x1', 'x2', 'x3'], ['c1', 'obj1']))
+    # objectives without terms: AMPL's "minimize Feas: 0;" of a feasibility problem, and a constant-only objective
+    for on, ob in (('empty objective', ('min', None, {})), ('constant objective', ('max', ('n', 3.0), {}))):
+        feas = Model([(0.0, 2.0, False, 0.5), (-2.0, 2.0, True, 1.0)], acons=[(None, {0: 1.0, 1: -1.0}, -1.0, 2.0), (('abs', ('v', 1)), {0: 1.0}, -INF, 2.0)], obj=ob)
+        for accname in ('mip', 'all'):
+            jobs.append((binary, len(jobs), 'feas', on, feas, accname, 0, 'absent', None, None))
+            jobs.append((binary, len(jobs), 'feas', on, feas, accname, 2, 'plain', ['x1', 'x2'], ['c1', 'c2', 'Feas']))
     classes = set(); n = 0; nrec = 0
     with ThreadPoolExecutor(max_workers=vcheck.NCPU) as ex:
         for out, cls, ident, k in ex.map(one, jobs):
@@ -118,7 +124,7 @@ def main(tier, seed):
     chk.set('rule', 'driver runs with cvt:writegraph over the C19 model set x acceptance configs x cvt:names {0,2} x name alphabets {absent, plain, '
             'quotes, backslashes, TAB/control/UTF-8}; strict JSON parse of every line, completeness of NL and delivered items, exactly one '
             'creation and one final-status record per stored constraint with consistent flags, link references inside item classes, '
-            'final==1 records equal the AddConstraint calls recorded by RecAPI; every NL constraint is the source and every stored constraint the destination of at least one link record; the export path holds stale content of an earlier run before every run (it must be replaced); one chain model with 100 consecutive reformulated constraints (> 256 link entries of one link object in a row). A class = (config, names mode, alphabet, parse result, links present).')
+            'final==1 records equal the AddConstraint calls recorded by RecAPI; every NL constraint is the source and every stored constraint the destination of at least one link record; the export path holds stale content of an earlier run before every run (it must be replaced); one chain model with 100 consecutive reformulated constraints (> 256 link entries of one link object in a row); objectives without terms (empty, constant only). A class = (config, names mode, alphabet, parse result, links present).')
     chk.assumptions += ['the rules "every NL constraint starts a link / every stored constraint ends one" go beyond the letter of the statement (which asks that every item appears and links refer to existing items); it holds on every model and configuration of the set and is what makes a silently truncated link export visible',
                         'the k-th delivered constraint of a type corresponds to the k-th final==1 record of that type (push order)']
     if nrec < 1000: chk.broken.append('vacuous: almost no graph records parsed')
